@@ -94,11 +94,47 @@ fn parse_case(case: &J) -> J {
     }
 }
 
+/// `ParametersSpec::new_parts(...)` then `can_fill_with_args(pos, names)` through the public API.
+/// groups: "pos_only" / "pos_or_named" / "named_only" = lists of [name, kind] with kind "Required" | "Optional" | "Defaulted".
+fn can_fill_case(case: &J) -> J {
+    use starlark::eval::ParametersSpec;
+    use starlark::eval::ParametersSpecParam;
+    use starlark::values::FrozenValue;
+    fn group(j: &J) -> Vec<(String, ParametersSpecParam<FrozenValue>)> {
+        j.as_array()
+            .cloned()
+            .unwrap_or_default()
+            .iter()
+            .map(|e| {
+                let kind = match e[1].as_str().unwrap_or("Required") {
+                    "Optional" => ParametersSpecParam::Optional,
+                    "Defaulted" => ParametersSpecParam::Defaulted(FrozenValue::new_none()),
+                    _ => ParametersSpecParam::Required,
+                };
+                (e[0].as_str().unwrap_or("").to_owned(), kind)
+            })
+            .collect()
+    }
+    let (po, pn, no) = (group(&case["pos_only"]), group(&case["pos_or_named"]), group(&case["named_only"]));
+    let spec: ParametersSpec<FrozenValue> = ParametersSpec::new_parts(
+        "f",
+        po.iter().map(|(n, k)| (n.as_str(), *k)),
+        pn.iter().map(|(n, k)| (n.as_str(), *k)),
+        case["args"].as_bool().unwrap_or(false),
+        no.iter().map(|(n, k)| (n.as_str(), *k)),
+        case["kwargs"].as_bool().unwrap_or(false),
+    );
+    let names: Vec<String> = case["names"].as_array().cloned().unwrap_or_default().iter().map(|x| x.as_str().unwrap_or("").to_owned()).collect();
+    let names_ref: Vec<&str> = names.iter().map(|s| s.as_str()).collect();
+    json!({"ok": spec.can_fill_with_args(case["pos"].as_u64().unwrap_or(0) as usize, &names_ref)})
+}
+
 fn run_case(case: &J) -> J {
     let kind = case["kind"].as_str().unwrap_or("eval");
     let r = std::panic::catch_unwind(AssertUnwindSafe(|| match kind {
         "eval" => eval_case(case),
         "parse" => parse_case(case),
+        "can_fill" => can_fill_case(case),
         "map" => maps::map_case(case),
         "vec2" => maps::vec2_case(case),
         _ => json!({"machinery_error": format!("unknown kind {kind}")}),
